@@ -1,9 +1,28 @@
 (* C06 -- templates are scoped per exporter, version, domain and id; latest wins.
-   Statements only; proofs in Proofs/PipeP.v. *)
-From Coq Require Import List NArith Bool.
-From GF Require Import Base.Res Base.Bytes Model.Msg Model.NF Model.Packet Model.ProdNF Model.Pipe Proofs.PipeP.
+   Statements only; proofs in Proofs/PipeP.v and Proofs/RefineP.v. *)
+From Coq Require Import String List NArith Bool.
+From GF Require Import Base.Res Base.Bytes Model.Msg Model.NF Model.Packet Model.ProdNF Model.Pipe Spec.RefStore Spec.GenPipe Base.Gen Proofs.PipeP Proofs.RefineP.
 Import ListNotations.
 Open Scope N_scope.
+
+(* THE PROPERTY, as a refinement: on EVERY history of datagrams (bytes < 256) from ANY exporters, the
+   NetFlow pipe -- per-exporter template systems, packed 64-bit key, templates learned before a failing
+   set kept -- shows exactly what the reference pipe of Spec/RefStore.v shows, whose template store is
+   ONE finite map keyed by the tuple (exporter, version, observation domain, template id) in which a
+   lookup returns the latest binding of exactly that tuple (c06_flat_map_is_a_map).  Per-datagram error
+   class and every produced message are compared; 'template not found', latest-wins, scoping and
+   isolation are all consequences. *)
+Theorem c06_refines_flat_map : forall cfg h,
+  Forall (fun x => wfb (snd x)) h -> nf_run cfg init_pstate h = rnf_run cfg rinit_pstate h.
+Proof. exact nf_run_refines. Qed.
+Print Assumptions c06_refines_flat_map.
+
+Theorem c06_flat_map_is_a_map : forall s k t k',
+  rget (radd s k t) k' = if rkey_eqb k k' then Some t else rget s k'.
+Proof. exact rget_radd. Qed.
+Theorem c06_flat_key_exact : forall k k', rkey_eqb k k' = true <-> k = k'.
+Proof. exact rkey_eqb_eq. Qed.
+Print Assumptions c06_flat_key_exact.
 
 (* the 64-bit store key is injective on (version, domain, id) over the wire ranges *)
 Theorem c06_key_injective : forall v d i v' d' i',
@@ -72,4 +91,13 @@ Example c06_nonvacuous :
   store_get st (tkey 10 1 256) = Some (TplData t1) /\ store_get st (tkey 10 2 256) = Some (TplData t2) /\
   store_get (add_trecs st 10 1 [t2; t1; t2]) (tkey 10 1 256) = Some (TplData t2) /\
   store_get st (tkey 9 1 256) = None.
+Proof. vm_compute. repeat split. Qed.
+
+(* non-vacuity of the refinement: a generated history (five exporters, re-announcements, unknown
+   templates) meets the hypothesis and makes the pipe decode records *)
+Example c06_refinement_nonvacuous :
+  let h := gcase gen_pipe_case 7 3 in
+  forallb (fun x => wfbb (snd x)) h = true /\ (2 <=? lenN h) = true /\
+  existsb (fun t => match t with TS s => String.eqb s "m"%string | _ => false end) (nf_run empty_prodcfg init_pstate h) = true /\
+  toks_eqb (nf_run empty_prodcfg init_pstate h) (rnf_run empty_prodcfg rinit_pstate h) = true.
 Proof. vm_compute. repeat split. Qed.
